@@ -9,6 +9,9 @@ re-run in a fresh interpreter):
   {"op": "renames", "kw": [[key, id]], "raises": bool}   the context manager on its own
   {"op": "build_new", "outs": [ids], "drop": bool}        build Vars constructed during the history (twice);
                                                           the same request later in the history must give the same bytes
+                                                          optional "names": {"ins": [...], "outs": [...], "perm": [...]}:
+                                                          the same Vars under other input/output names, inputs listed in
+                                                          another order (the same objects, differently named neighbours)
   {"op": "edit_model", "model": k, "how": "weights"|"op"}  the CALLER edits a model it passed to inline
                                                           earlier, in place, keeping its byte size
   construct kinds "untyped"/"partial": a user-defined operator whose output has no type / no rank
@@ -142,8 +145,11 @@ class _Boom(Exception):
     pass
 
 
-def run_case(prog, hist, ref, collect_all=False):
-    """Realise `prog`, build `ref` (if any), run `hist`, build `ref` again.
+def run_case(prog, hist, ref, collect_all=False, _twin=False, twin=True):
+    """Realise `prog`, build `ref` (if any), run `hist`, build `ref` again; finally make the same
+    constructions once more on new objects that are never built before (`_twin`: constructions only,
+    returns {"env": …}) and build the last requests there: equal requests must give equal bytes
+    whatever was built before on the same objects under other names / with other companions.
 
     Returns {"violations": [[key, what, step]], "ref_before", "ref_mid", "ref_after"} where the ref_*
     are sha1 of SerializeToString(deterministic=True) or 'err:<class>'."""
@@ -158,8 +164,18 @@ def run_case(prog, hist, ref, collect_all=False):
     viol = []
     next_id = [prog["n"]]
 
+    last_builds = {}  # request (as json) -> (request, sha): what each successful request gave most recently
+
+    def remember(req, s_):
+        import json as _json
+
+        if not s_.startswith("err:"):
+            k_ = _json.dumps([req["inputs"], req["outputs"], bool(req["drop"])])
+            last_builds.pop(k_, None)
+            last_builds[k_] = (req, s_)
+
     def ref_build():
-        if ref is None:
+        if ref is None or _twin:
             return None
         got = lf.run_build(env, ref)
         return sha(got[1]) if got[0] == "ok" else "err:" + got[1]
@@ -177,15 +193,19 @@ def run_case(prog, hist, ref, collect_all=False):
     seen_new = {}
     edited = set()
     for step, o in enumerate(hist):
-        before = snapshot(env)
-        mb = {k: m.SerializeToString(deterministic=True) for k, m in models.items()}
         kind = o["op"]
+        if _twin and kind in ("build", "build_new", "renames"):
+            continue
+        before = {} if _twin else snapshot(env)
+        mb = {k: m.SerializeToString(deterministic=True) for k, m in models.items()}
         tag = kind
         with warnings.catch_warnings():
             warnings.simplefilter("ignore")
             if kind == "build":
                 got = lf.run_build(env, o["req"])
                 tag = "build-ok" if got[0] == "ok" else "build-failed"
+                if got[0] == "ok":
+                    remember(o["req"], sha(got[1]))
             elif kind in ("construct", "inline") and (o.get("a", o.get("x")) not in env or ("b" in o and o["b"] not in env)):
                 tag = "skipped"  # an earlier operation failed to produce the operand
             elif kind == "construct":
@@ -238,7 +258,7 @@ def run_case(prog, hist, ref, collect_all=False):
                     tag = "inline-ok"
                     # the result must be what an equal, never-seen copy of the model gives — also after the
                     # caller has edited the model in place since an earlier inline call
-                    if how in ("kw", "pos") and getattr(x, "type", None) is not None:
+                    if how in ("kw", "pos") and getattr(x, "type", None) is not None and not _twin:
                         import onnx
 
                         twin = onnx.ModelProto()
@@ -262,17 +282,23 @@ def run_case(prog, hist, ref, collect_all=False):
                     tag = "skipped"
                 else:
                     arg_ids = [n["id"] for n in prog["nodes"] if n["k"] == "arg"]
-                    req = {"inputs": [[f"x{j}", a] for j, a in enumerate(arg_ids)],
-                           "outputs": [[f"o{j}", x] for j, x in enumerate(outs_)], "drop": o["drop"]}
+                    nm = o.get("names") or {}
+                    in_names = nm.get("ins") or [f"x{j}" for j in range(len(arg_ids))]
+                    out_names = nm.get("outs") or [f"o{j}" for j in range(len(outs_))]
+                    order = [j for j in (nm.get("perm") or range(len(arg_ids))) if j < len(arg_ids)]
+                    req = {"inputs": [[in_names[j] if j < len(in_names) else f"x{j}", arg_ids[j]] for j in order],
+                           "outputs": [[out_names[j] if j < len(out_names) else f"o{j}", x] for j, x in enumerate(outs_)],
+                           "drop": o["drop"]}
+                    rk = (tuple(outs_), bool(o["drop"]), repr(o.get("names")))
                     g1 = lf.run_build(env, req)
-                    g2 = lf.run_build(env, req)
+                    g2 = lf.run_build(env, req) if rk not in seen_new else g1   # twice in a row the first time
                     tag = "build-ok" if g1[0] == "ok" else "build-failed"
                     s1 = sha(g1[1]) if g1[0] == "ok" else "err:" + g1[1]
                     s2 = sha(g2[1]) if g2[0] == "ok" else "err:" + g2[1]
                     if s1 != s2:
                         viol.append(["bytes:repeat-differs", f"Vars made during the history built twice in a row: {s1} then {s2} (step {step})", step])
                     # the same request earlier in this history must have given the same bytes
-                    rk = (tuple(outs_), bool(o["drop"]))
+                    remember(req, s1)
                     if rk in seen_new and seen_new[rk][0] != s1:
                         viol.append(["bytes:differs-after-history",
                                      f"Vars #{list(outs_)} built at step {seen_new[rk][1]} gave {seen_new[rk][0]}, the same request at step {step} gives {s1}", step])
@@ -326,7 +352,28 @@ def run_case(prog, hist, ref, collect_all=False):
             out["ref_mid"].append(ref_build())
         if viol and not collect_all:
             break
+    if _twin:
+        return {"env": env}
     out["ref_after"] = ref_build()
+    if ref is not None and out["ref_after"] is not None:
+        remember(ref, out["ref_after"])
+    if twin and not viol and last_builds:
+        # the same constructions on new objects, none of which has ever been built: the most recent requests
+        # must give there what they gave here after everything that went before
+        try:
+            env2 = run_case(prog, hist, None, _twin=True)["env"]
+        except Exception:  # noqa: BLE001 - the constructions themselves are not what is judged here
+            env2 = None
+        for req_, s_here in list(last_builds.values())[-3:] if env2 is not None else []:
+            if any(i not in env2 for _, i in req_["inputs"] + req_["outputs"]):
+                continue
+            g2 = lf.run_build(env2, req_)
+            s_twin = sha(g2[1]) if g2[0] == "ok" else "err:" + g2[1]
+            if s_twin != s_here:
+                viol.append(["bytes:differs-from-never-built-objects",
+                             f"request {req_['inputs']} -> {req_['outputs']} (drop={req_['drop']}) gives {s_here} after this history, "
+                             f"{s_twin} on equal objects made the same way but never built before", len(hist)])
+                break
     if out["ref_after"] != out["ref_before"]:
         viol.append(["bytes:differs-after-history",
                      f"the reference request built {out['ref_before']} before and {out['ref_after']} after the history", len(hist)])
@@ -342,6 +389,19 @@ def gen_history(rng: random.Random, prog, n_ops):
     args = [n["id"] for n in top if n["k"] == "arg"]
     scalars = [n["id"] for n in top if n["k"] not in ("arg", "init", "junk", "tcast")]
     anyv = args + scalars
+    # f32 rank-0 arguments are scalars too: inlined models / new operators then have an *argument* — a value
+    # whose name the next request chooses — as their direct neighbour
+    scalars = scalars + [n["id"] for n in top if n["k"] == "arg" and n["ty"] == lf.SCALAR] * 2
+
+    def other_names():
+        """The same Vars under other names: inputs renamed and listed in another order, outputs renamed."""
+        perm = list(range(len(args)))
+        rng.shuffle(perm)
+        pool = [f"x{j}" for j in range(len(args))] + [f"in{j}" for j in range(len(args))] + ["a", "b", "data", "Z"] + lf.HOSTILE_NAMES[:12]
+        ins = rng.sample(pool, len(args))
+        outs = rng.sample(["o0", "o1", "o2", "y", "out", "res", "r0", "final"], 3)
+        outs = [n_ for n_ in outs if n_ not in ins] + ["oo0", "oo1", "oo2"]
+        return {"ins": ins, "outs": outs[:3], "perm": perm}
     nxt = prog["n"]
     hist = []
     made = []
@@ -361,8 +421,27 @@ def gen_history(rng: random.Random, prog, n_ops):
                 nxt += 1
             d = rng.random() < 0.7
             hist.append({"op": "build_new", "outs": [v], "drop": d})
-            hist.append({"op": "build_new", "outs": [v, rng.choice(newer)], "drop": d})
+            mid = {"op": "build_new", "outs": [v, rng.choice(newer)], "drop": d}
+            if rng.random() < 0.5:
+                mid["names"] = other_names()   # … and with differently named neighbours
+            hist.append(mid)
             hist.append({"op": "build_new", "outs": [v], "drop": d})
+        elif made and rng.random() < 0.25:
+            # the same objects under names A, then under names B (other order, maybe another companion), then A again
+            k_ = rng.choice([1, 1, 2])
+            outs_ = rng.sample(made, min(k_, len(made)))
+            if inlined and rng.random() < 0.6:
+                outs_[0] = rng.choice(inlined)[0]
+            d = rng.random() < 0.7
+            first = {"op": "build_new", "outs": outs_, "drop": d}
+            if rng.random() < 0.5:
+                first["names"] = other_names()
+            hist.append(first)
+            other = {"op": "build_new", "outs": list(outs_), "drop": d if rng.random() < 0.7 else not d, "names": other_names()}
+            if rng.random() < 0.4 and len(made) > 1:
+                other["outs"] = other["outs"] + [rng.choice(made)]
+            hist.append(other)
+            hist.append(dict(first))
         elif made and rng.random() < 0.2:
             k_ = rng.choice([1, 1, 2])
             hist.append({"op": "build_new", "outs": rng.sample(made, min(k_, len(made))), "drop": rng.random() < 0.7})
@@ -445,6 +524,8 @@ def gen_reference(rng: random.Random, prog):
     """A valid request with >= 1 input over the original pool (the request whose bytes are compared)."""
     for _ in range(20):
         req = lf.gen_request(rng, prog, allow_bad=False)
+        if not req["outputs"]:
+            continue
         if "multi" in prog and all(o != prog["multi"] for _, o in req["outputs"]):
             req["outputs"][0][1] = prog["multi"]  # the value that needs several operator domains
         e = lf.expected(prog, req)
@@ -471,8 +552,13 @@ def gen_reuse_family(rng: random.Random, n):
     for _ in range(n):
         p = copy.deepcopy(base)
         for nd in lf.walk(p["nodes"]):
-            if nd["k"] == "arg":
-                nd["ty"] = lf.gen_type(rng, "e" in nd["ty"])  # keep tensor arguments tensors (Cast nodes refer to their dims)
+            if nd["k"] == "arg" and lf.role_typed(nd["ty"]):
+                pass  # may be a direct operand (scalar operand, If condition, Loop trip count, Scan input): type kept
+            elif nd["k"] == "arg":
+                for _ in range(20):
+                    nd["ty"] = lf.gen_type(rng, "e" in nd["ty"])  # keep tensor arguments tensors (Cast nodes refer to their dims)
+                    if not lf.role_typed(nd["ty"]) and nd["ty"].get("e") not in lf.SIZE_LIFT:
+                        break  # (a Cast of the argument may exist: no string / bfloat16 / complex here)
             elif nd["k"] == "const":
                 nd["v"] = float(rng.randrange(-3, 4))
         progs.append(p)
